@@ -16,6 +16,7 @@ import (
 	"math/rand"
 	"net"
 	"net/http"
+	"net/url"
 	"os"
 	"runtime"
 	"strconv"
@@ -104,6 +105,7 @@ type force struct {
 	stopKind   string
 	minSteps   int
 	panicFirst bool
+	lateDial   bool
 }
 
 func freePort() string {
@@ -458,9 +460,57 @@ func httpCase(rep *hx.Report, seed int64, fo force) {
 	if fo.stopKind != "" {
 		h.StopKind = fo.stopKind
 	}
+	// the engine used as a CLIENT too: a dial that completes a few ms after Stop/Shutdown has begun registers a
+	// connection behind the first sweep over the connection tables
+	stopBegins := make(chan struct{})
+	lateCleanup := func() {}
+	var lateLn net.Listener
+	if fo.lateDial || r.Intn(4) == 0 {
+		lateLn, _ = net.Listen("tcp", "127.0.0.1:0")
+	}
+	if lateLn != nil {
+		var held []net.Conn
+		var heldMu sync.Mutex
+		go func() {
+			for {
+				c, err := lateLn.Accept()
+				if err != nil {
+					return
+				}
+				heldMu.Lock()
+				held = append(held, c) // accepted, never answered
+				heldMu.Unlock()
+			}
+		}()
+		delay := time.Duration(5+r.Intn(60)) * time.Millisecond
+		var cc *nbhttp.ClientConn
+		lateCleanup = func() {
+			// the harness's own side of the late dial: not the engine's to reclaim
+			time.Sleep(delay + 50*time.Millisecond)
+			cc.Close()
+			lateLn.Close()
+			heldMu.Lock()
+			for _, c := range held {
+				c.Close()
+			}
+			heldMu.Unlock()
+			time.Sleep(20 * time.Millisecond)
+		}
+		cc = &nbhttp.ClientConn{Engine: e, Timeout: 20 * time.Second, Dial: func(network, addr string) (net.Conn, error) {
+			<-stopBegins
+			time.Sleep(delay)
+			return net.DialTimeout(network, addr, 2*time.Second)
+		}}
+		u, _ := url.Parse("http://" + lateLn.Addr().String() + "/late")
+		go cc.Do(&http.Request{Method: "GET", URL: u, Host: u.Host, Header: http.Header{}, Proto: "HTTP/1.1", ProtoMajor: 1, ProtoMinor: 1},
+			func(res *http.Response, conn net.Conn, err error) {})
+		h.Steps = append(h.Steps, fmt.Sprintf("client-dial-completes-%v-after-stop-begins", delay))
+		hx.Current("C18", "the process died while this nbhttp history (with a late client dial) was running", h)
+	}
 	done := make(chan struct{})
 	t0 := time.Now()
 	go func() {
+		close(stopBegins)
 		if h.StopKind == "Stop" {
 			e.Stop()
 		} else {
@@ -478,6 +528,7 @@ func httpCase(rep *hx.Report, seed int64, fo force) {
 	h.StopMs = time.Since(t0).Milliseconds()
 	h.Opened, h.Closed = -1, -1
 	closeFillers()
+	lateCleanup()
 	finish(rep, h, g0, f0, func() {
 		for _, c := range clients {
 			c.Close()
@@ -682,7 +733,7 @@ func main() {
 	if *out != "" && *out != "-" {
 		hx.CurrentFile = *out + ".current"
 	}
-	rep.Rule = "histories of accepts, AddConn, DialAsync, echo traffic, multi-MiB backlogs to non-reading peers, vectored writes beyond MaxWriteBufferSize, pending deadlines, peer and server closes, closes racing Stop; nbhttp: exchanges, half requests, idle and unread-response connections, an injected Accept error, a handler that panics on a kept-alive connection; connections refused because the descriptor table (MaxOpenFiles) is full, for accepted / added / dialed / nbhttp connections (corpus + random); Stop/Shutdown right after Start before any poller goroutine has run (single P, no yield); x {LT, ET, ET+ONESHOT} x NPoller x IOMod x {Stop, Shutdown}; non-trivial = at least one step before Stop; distinct = distinct (configuration, step list)"
+	rep.Rule = "histories of accepts, AddConn, DialAsync, echo traffic, multi-MiB backlogs to non-reading peers, vectored writes beyond MaxWriteBufferSize, pending deadlines, peer and server closes, closes racing Stop; nbhttp: exchanges, half requests, idle and unread-response connections, an injected Accept error, a handler that panics on a kept-alive connection, a client dial on the same engine that completes just after Stop/Shutdown began; connections refused because the descriptor table (MaxOpenFiles) is full, for accepted / added / dialed / nbhttp connections (corpus + random); Stop/Shutdown right after Start before any poller goroutine has run (single P, no yield); x {LT, ET, ET+ONESHOT} x NPoller x IOMod x {Stop, Shutdown}; non-trivial = at least one step before Stop; distinct = distinct (configuration, step list)"
 	// warm up lazily started runtime goroutines so the baseline is stable
 	coreCase(hx.NewReport("warmup", 0), 12345, force{})
 	httpCase(hx.NewReport("warmup", 0), 12345, force{})
@@ -694,6 +745,10 @@ func main() {
 				httpCase(rep, *seed*100057+int64(100*i+10*room+im), force{fdlimit: true, room: room, iomod: 1 + im, stopKind: sk, minSteps: 3})
 			}
 		}
+	}
+	// corpus: a client dial on the same engine that completes just after Stop / Shutdown began
+	for i, sk := range []string{"Shutdown", "Stop", "Shutdown"} {
+		httpCase(rep, *seed*100079+int64(i), force{iomod: 1 + nbhttp.IOModNonBlocking, stopKind: sk, minSteps: 1, lateDial: true})
 	}
 	// corpus: a handler panic on a kept-alive connection before Stop / Shutdown, in every IOMod
 	for i, sk := range []string{"Shutdown", "Stop"} {
